@@ -130,6 +130,38 @@ func (s *Sim) JoinEdge(from *Task) {
 	s.mu.Unlock()
 }
 
+// Stamp marks "everything the calling task has done so far"; Before reports whether a stamp
+// happens before the calling task's present. With them a harness can ask the monitor's
+// question about its own callbacks (was the matcher the client ran on another goroutine
+// finished, in the happens-before sense, when the call returned?).
+type Stamp struct {
+	Task  int
+	Clock uint32
+	OK    bool
+}
+
+func (s *Sim) Stamp() Stamp {
+	t := s.cur()
+	if t == nil {
+		return Stamp{}
+	}
+	s.mu.Lock()
+	defer s.mu.Unlock()
+	c := t.vc.get(t.ID)
+	t.vc.set(t.ID, c+1) // later events of this task are not covered by the stamp
+	return Stamp{Task: t.ID, Clock: c, OK: true}
+}
+
+func (s *Sim) Before(st Stamp) bool {
+	t := s.cur()
+	if t == nil || !st.OK {
+		return true
+	}
+	s.mu.Lock()
+	defer s.mu.Unlock()
+	return st.Task == t.ID || st.Clock <= t.vc.get(st.Task)
+}
+
 func ordered(e epoch, t *Task) bool {
 	return !e.ok || e.task == t.ID || e.clock <= t.vc.get(e.task)
 }
